@@ -23,6 +23,7 @@ type rolloutOutcome struct {
 	Revisions []string
 	Updated   string
 	ReqCounts []int // requests per rollout-phase sync (baseline only)
+	RevReqs   [][]int // per rollout-phase sync: indices of the requests on ControllerRevisions (baseline only)
 	Mixed     []bool
 }
 
@@ -71,7 +72,9 @@ func isChildWrite(e *Env, r *vs.Request) bool {
 // revision write means no child is touched.
 func judgeIntentFirst(e *Env, t *SyncTrace) error {
 	firstChild := -1
-	revFailed := false
+	// revision writes that failed and were not made good by a later accepted write to the same
+	// object (an optimistic-lock conflict that is retried successfully is not a failure)
+	failedRev := map[string]bool{}
 	for i, r := range t.Reqs {
 		if r.Dropped {
 			continue
@@ -80,10 +83,17 @@ func judgeIntentFirst(e *Env, t *SyncTrace) error {
 			if firstChild >= 0 {
 				return vs.Violf("C09/revision-write-after-child-write", "%s comes after child write %s in the same sync", r.String(), t.Reqs[firstChild].String())
 			}
+			key := r.Namespace + "/" + r.Name
+			if r.Verb == "create" && r.Body != nil {
+				key = r.Namespace + "/" + metaStr(r.Body, "name")
+			}
 			if !r.Accepted() {
-				revFailed = true
+				failedRev[key] = true
+			} else {
+				delete(failedRev, key)
 			}
 		}
+		revFailed := len(failedRev) > 0
 		if isChildWrite(e, r) {
 			if firstChild < 0 {
 				firstChild = i
@@ -336,6 +346,13 @@ func runRolloutWithCut(scn *Scn, f Factory, edits []int, midSyncs int, ogStyle i
 		}
 		if counted && plan.Sync < 0 {
 			out.ReqCounts = append(out.ReqCounts, len(t.Reqs))
+			var revIdx []int
+			for i, r := range t.Reqs {
+				if r.Def.Resource == "controllerrevisions" {
+					revIdx = append(revIdx, i)
+				}
+			}
+			out.RevReqs = append(out.RevReqs, revIdx)
 			hasRev, hasChild := false, false
 			for _, r := range t.Reqs {
 				if isRevWrite(r) {
@@ -423,7 +440,7 @@ func runRolloutWithCut(scn *Scn, f Factory, edits []int, midSyncs int, ogStyle i
 		}
 	}
 	o := env.outcome()
-	o.ReqCounts, o.Mixed = out.ReqCounts, out.Mixed
+	o.ReqCounts, o.Mixed, o.RevReqs = out.ReqCounts, out.Mixed, out.RevReqs
 	if len(env.CacheViolations) > 0 {
 		return o, vs.Violf("C17/cache-mutated", "shared cache objects changed during a sync: %v", env.CacheViolations)
 	}
@@ -504,6 +521,20 @@ func PropC09(c *vs.Case, f Factory, o RolloutOpts) error {
 	kinds := []string{"crash", "err500", "lost-response", "conflict", "hook-old", "hook-latest"}
 	ct := cuts[c.Int(len(cuts))]
 	kind := kinds[c.Int(len(kinds))]
+	if orphaned && c.Bool() {
+		// aim at the requests that re-adopt the orphaned revisions
+		var revCuts []cut
+		for s, idx := range base.RevReqs {
+			for _, r := range idx {
+				revCuts = append(revCuts, cut{s, r})
+			}
+		}
+		if len(revCuts) > 0 {
+			ct = revCuts[c.Int(len(revCuts))]
+			kind = kinds[c.Int(4)]
+			c.Class("cut-at-revision-request-after-orphaning")
+		}
+	}
 	cur = CutPlan{Sync: ct.s, Req: ct.r, Kind: kind}
 	c.Class("cut:%s", kind)
 	if base.Mixed[ct.s] {
